@@ -39,7 +39,7 @@ public:
 
   const char * what() const noexcept override
   {
-    static char buf[256];
+    static thread_local char buf[256];
     BLOC_VERIF_POINT(BLOC_VP_ERRWHAT, buf);
     if (_message != nullptr)
       snprintf(buf, sizeof(buf), _message, _arg.c_str());
